@@ -3,6 +3,8 @@
 (* application after every request, `added` to the decoded messages that appeared in the          *)
 (* turnstone queues of the four EVM chains during the request's block, `last` is the request,     *)
 (* `res` the class of the result the chain (or the wasm message router) reported.                 *)
+(* Simulate / RolledBack events ran their messages on a branch that was never committed, Query events  *)
+(* carry the job the scheduler's query returned; all monitors judge against the COMMITTED store.        *)
 (* Property monitors (MONFAIL, verdict): the step properties of Scheduler on observed state.      *)
 (* Conformance (CONFFAIL, drift only): the observed step equals the spec's own action.            *)
 EXTENDS Scheduler, Json
@@ -38,9 +40,17 @@ Class(cs, code) ==
 \* failure classes of the model that surface as unregistered errors
 Coarse(w) == IF w \in {"nopayload", "badpayload", "nochain", "norelayer"} THEN "err" ELSE w
 
+RowRec(r) == [owner |-> r.owner, chain |-> r.chain, target |-> r.target, payload |-> r.payload, sp |-> r.sp, den |-> r.den,
+              mod |-> r.mod, mev |-> r.mev]
+\* the job query answers exactly with the job of the committed store (and with nothing for an id that is not stored)
+QueryObs(e) == (e.act = "Query") =>
+  /\ QueryIsStored
+  /\ (e.res = "found" => e.args.id \in DOMAIN jobs' /\ e.q.id = e.args.id /\ e.q.idf = e.args.id /\ RowRec(e.q) = jobs'[e.args.id])
+
 Monitors(e) ==
   /\ Report("C17.IdUnique", StoreOK(e.obs) /\ IdUnique)
-  /\ Report("C17.JobsImmutable", JobsImmutable)
+  /\ Report("C17.JobsImmutable", JobsImmutable /\ QueryObs(e))
+  /\ Report("C17.DiscardedIsInvisible", DiscardedIsInvisible)
   /\ Report("C17.ExactlyOneCall", ExactlyOneCall /\ e.obs.removed = 0)
   /\ Report("C17.CallIsStoredCall", CallIsStoredCall)
   \* the requester's identity: the payload suffix, and the sender / contract fields of the call name the requester
@@ -56,7 +66,7 @@ TrInit == IsEvent("Init") /\ LET e == Trace[l] IN
   /\ res' = "init" /\ last' = Rec("Init", 0, 0, "", 0, 0, 0, 0, "", FALSE, FALSE, 0) /\ nops' = 0
   /\ Conf("Init", jobs' = [i \in {} |-> 0] /\ added' = <<>>)
 
-Acts == {"Create", "Execute"}
+Acts == {"Create", "Execute", "Simulate", "RolledBack", "Query"}
 ActEvent(failed) == /\ l <= Len(Trace) /\ Trace[l].act \in Acts
                     /\ (Trace[l].res = "blockfail") = failed /\ l' = l + 1
 
@@ -65,10 +75,15 @@ TrAct == ActEvent(FALSE) /\ LET e == Trace[l]  a == e.args IN
   /\ added' = BindAdded(e.obs)
   /\ vq' = vq \cup {added'[i].chain : i \in Upds(added')}
   /\ last' = Rec(e.act, a.who, a.as, a.via, a.id, a.chain, a.target, a.payload, a.sp, a.mod, a.mev, a.pg)
-  /\ res' = IF e.res = "ok" THEN "ok" ELSE Class(e.cs, e.code)
+  /\ res' = IF e.res = "ok" THEN "ok"
+            ELSE IF e.act \in {"Simulate", "RolledBack", "Query"} THEN e.res ELSE Class(e.cs, e.code)
   /\ nops' = nops + 1
   /\ Monitors(e)
-  /\ IF e.act = "Create"
+  /\ IF e.act \in {"Simulate", "RolledBack"}
+     THEN ConfD(e.act, res' = "discarded" /\ jobs' = jobs /\ added' = <<>>, <<a, res', e.inner>>)
+     ELSE IF e.act = "Query"
+     THEN ConfD("Query", jobs' = jobs /\ added' = <<>> /\ res' = (IF a.id \in DOMAIN jobs THEN "found" ELSE "notfound"), <<a, res', e.q>>)
+     ELSE IF e.act = "Create"
      THEN LET w == CreateWhy(a.who, a.as, a.via, a.id, a.chain, a.mev) IN
           ConfD("Create", /\ res' = Coarse(w) /\ added' = <<>>
                           /\ jobs' = CreateJobs(w, a.who, a.id, a.chain, a.target, a.payload, a.sp, a.mod, a.mev),
